@@ -8,7 +8,7 @@ Local Open Scope N_scope.
 Lemma all_formats_wf : forallb wf_alloc all_formats = true.
 Proof. vm_compute. reflexivity. Qed.
 
-Lemma all_formats_count : length all_formats = 105%nat.
+Lemma all_formats_count : length all_formats = 120%nat.
 Proof. vm_compute. reflexivity. Qed.
 
 Lemma all_formats_bounds :
